@@ -116,10 +116,10 @@ def r08a(chk, rid='R08.a'):
             sh._setCssTextWithEncodingOverride = lambda toks, encodingOverride=None, encoding=None: handed.append((toks, encodingOverride, encoding))
             return sh
 
-        me = _Obj(**{'__fetcher': 'F', '_validate': True, '__parseSetting': lambda on: None, '__tokenizer': _Obj(tokenize=lambda text_, fullsheet=False: ('tokens of', text_, fullsheet))})
+        me = _Obj(**{'__fetcher': 'F', '_validate': True, '__parseRaising': False, '__globalRaising': False, '__tokenizer': _Obj(tokenize=lambda text_, fullsheet=False: ('tokens of', text_, fullsheet))})
         from sa.absint import Record as _Rec
 
-        intr = {'codecs.getdecoder': getdecoder, 'cssutils': _Rec(css=_Rec(CSSStyleSheet=newsheet), stylesheets=_Rec(MediaList=lambda media=None: ('media', media)), codec=_Rec(detectencoding_str=lambda b, final=False: ('utf-8-sig', True) if b[:3] == b'\xef\xbb\xbf' else ('utf-8', False))),
+        intr = {'codecs.getdecoder': getdecoder, 'cssutils': _Rec(log=_Rec(raiseExceptions=False), css=_Rec(CSSStyleSheet=newsheet), stylesheets=_Rec(MediaList=lambda media=None: ('media', media)), codec=_Rec(detectencoding_str=lambda b, final=False: ('utf-8-sig', True) if b[:3] == b'\xef\xbb\xbf' else ('utf-8', False))),
                 'codec': _Rec(detectencoding_str=lambda b, final=False: ('utf-8-sig', True) if b[:3] == b'\xef\xbb\xbf' else ('utf-8', False))}
         got = _Ev(psf, intrinsics=intr, module=pm, cls='CSSParser').run(self=me, cssText=data, encoding=enc)
         text_in = 'decoded text' if isinstance(data, bytes) else data
